@@ -20,16 +20,11 @@ from .deferredmodel import DeferredDomain, is_dfr, is_failure
 
 REACTOR, DC, SIGNAL = ("wobj", "reactor"), ("wobj", "dc"), ("wobj", "signal")
 TIMEOUT = ("sym", "timeout")
-USER_VALUE, USER_EXC = ("sym", "user-value"), ("exc", "UserError")
+from .deferredmodel import USER_EXC, USER_VALUE, userfn  # noqa: E402,F401
 A1, K1 = ("sym", "arg-1"), ("sym", "kw-1")
 DC1, DC2, SEL1 = ("wobj", "leftover-call-1"), ("wobj", "leftover-call-2"), ("wobj", "leftover-selectable")
 REAL_STOP = ("bound", "reactor", "stop")
 SIGNUMS = {"SIGINT": 2, "SIGTERM": 15, "SIGCHLD": 17}
-USER_KINDS = ("value", "raise", "fired-ok", "fired-fail", "pending")
-
-
-def userfn(kind):
-    return ("userfn", kind)
 
 
 class SpinnerDomain(DeferredDomain):
@@ -68,55 +63,17 @@ class SpinnerDomain(DeferredDomain):
         return None
 
     def truth(self, value):
-        if isinstance(value, tuple) and value[:1] in (("userfn",), ("handler-of",)):
+        if isinstance(value, tuple) and value[:1] in (("handler-of",),):
             return "T"
         return super().truth(value)
 
     def is_none(self, value):
-        if isinstance(value, tuple) and value[:1] in (("userfn",), ("handler-of",)):
+        if isinstance(value, tuple) and value[:1] in (("handler-of",),):
             return "F"
         return super().is_none(value)
 
-    # -- the user function -------------------------------------------------------------------
-    def apply(self, interp, fn, pos, kw, st, fr):
-        if isinstance(fn, tuple) and fn[:1] == ("userfn",):
-            log = st.get("ev.calls", ())
-            s = st.set("ev.calls", log + (("user-function", tuple(pos), tuple(kw), fn[1]),))
-            kind = fn[1]
-            if kind == "value":
-                return [val(USER_VALUE, s)]
-            if kind == "raise":
-                return [exc(USER_EXC, s)]
-            oc = {"fired-ok": ("ok", USER_VALUE), "fired-fail": ("fail", ("failure", USER_EXC)), "pending": ("pending",)}[kind]
-            dv, s2 = self.new_dfr(s, oc)
-            return [val(dv, s2.set("ev.user_dfr", dv))]
-        return super().apply(interp, fn, pos, kw, st, fr)
-
-    # -- Failure objects ----------------------------------------------------------------------
     def call(self, interp, call, st, fr):
         d = dotted(call.func) or ""
-        if d.split(".")[-1] == "Failure" and len(call.args) <= 1 and not call.keywords:
-            out = []
-            for r in interp.eval_list(list(call.args), st, fr):
-                if r.kind == "exc":
-                    out.append(r)
-                else:
-                    e_ = r.value[0] if r.value else r.state.get(fr.local("<handling>"), ("exc", "current"))
-                    out.append(val(("failure", e_), r.state))
-            return out
-        f_ = call.func
-        if isinstance(f_, ast.Attribute) and f_.attr == "raiseException" and not call.args:
-            out = []
-            handled = True
-            for r in interp.eval(f_.value, st, fr):
-                if r.kind == "exc":
-                    out.append(r)
-                elif is_failure(r.value):
-                    out.append(exc(r.value[1], r.state))
-                else:
-                    handled = False
-            if handled:
-                return out
         if d.endswith(".providedBy"):
             out = []
             for r in interp.eval_list(list(call.args), st, fr):
